@@ -12,7 +12,7 @@ import (
 func init() {
 	register(&propInfo{
 		id: "C06", fn: checkC06, multiConfig: true,
-		explanation: "All clauses are facts about the shape of connState.handleRequest and its helpers: (r1) on every path, the number of send calls is exactly one when the tag was started (carrying the tag value returned by recv and the message returned by cs.handle) or when recv reported a protocol error (carrying newErr(err)), and exactly zero on the connection-error, shutdown and duplicate-tag paths — counted by a min/max call-count dataflow, so a send inside a loop or on two branches of one path is seen; (r2) send on a connection is called only from handleRequest and Client.sendRecv, handler.handle only from connState.handle; (r3) every send site holds the connection's sendMu and send() hands header, fixed part and payload to a single vectored write; (r4) recvMu is not held (may-analysis) when cs.handle runs, and the spawn of a further receiver happens under the receive token, preceded by pendingWg.Add, conditioned on recvIdle == 0; (r5) ClearTag follows cs.handle and precedes the send, has no other caller, and cs.handle always yields a message because its deferred function recovers and substitutes EFAULT; (r6) no call that may reach an opaque backend method is made while fidMu, tagMu, sendMu or recvMu may be held (interprocedural may-held sets); (r7) a Tflush naming its own tag cannot wait for itself (shared with C14.r3).",
+		explanation: "All clauses are facts about the shape of connState.handleRequest and its helpers: (r1) on every path, the number of send calls is exactly one when the tag was started (carrying the tag value returned by recv and the message returned by cs.handle) or when recv reported a protocol error (carrying newErr(err)), and exactly zero on the connection-error, shutdown and duplicate-tag paths — counted by a min/max call-count dataflow, so a send inside a loop or on two branches of one path is seen; (r2) send on a connection is called only from handleRequest and Client.sendRecv, handler.handle only from connState.handle; (r3) every send site holds the connection's sendMu and send() hands header, fixed part and payload to a single vectored write; (r4) recvMu is not held (may-analysis) when cs.handle runs, and the spawn of a further receiver happens under the receive token, preceded by pendingWg.Add, conditioned on recvIdle == 0; (r5) ClearTag follows cs.handle and precedes the send, has no other caller, and cs.handle always yields a message because its deferred function recovers and substitutes EFAULT; (r6) no call that may reach an opaque backend method is made while fidMu, tagMu, sendMu or recvMu may be held (interprocedural may-held sets); (r7) a Tflush naming its own tag cannot wait for itself (shared with C14.r3). (r9) framing survives a rejected frame: every non-connection-error exit of recv has consumed exactly the frame's body (the rule of C02.r3), so the requests after an undecodable frame are still answered and no reply is made up from leftover bytes.",
 		assumptions: []string{"fairness and actual progress under a scheduler are not decided; 'delays only what the contract orders' is decided in the necessary-condition form r4+r6 (no extra serialisation point exists)"},
 	})
 	register(&propInfo{
@@ -324,12 +324,18 @@ func checkC06(r *Run) {
 		// The goroutine runs handleRequests.
 		runs := false
 		if g, ok := b.Node.(*ast.GoStmt); ok {
-			ast.Inspect(g.Call, func(n ast.Node) bool {
-				if c, ok := n.(*ast.CallExpr); ok && calleeKey(info, c) == "p9.connState.handleRequests" {
-					runs = true
-				}
-				return true
-			})
+			look := []ast.Node{g.Call}
+			if body := m.spawnedBody(g.Call); body != nil {
+				look = append(look, body) // a declared function started as the goroutine
+			}
+			for _, nd := range look {
+				ast.Inspect(nd, func(n ast.Node) bool {
+					if c, ok := n.(*ast.CallExpr); ok && calleeKey(info, c) == "p9.connState.handleRequests" {
+						runs = true
+					}
+					return true
+				})
+			}
 		}
 		r.check(runs, "r4", "the spawned goroutine serves requests", b.Node.Pos(), "calls handleRequests", "the spawned goroutine does not call handleRequests")
 	}
@@ -412,6 +418,11 @@ func checkC06(r *Run) {
 
 	// --- r7 ---
 	c14SelfWait(r, m, "r7")
+
+	// --- r9: framing is kept across a rejected frame (the rule of C02.r3): a request that
+	// follows an undecodable one is still read from its own first byte, so it gets its reply
+	// and no reply is produced for bytes nobody sent as a request ---
+	r.borrow(checkC02, map[string]string{"r3": "r9"})
 }
 
 func exitLabel(r *Run, ex *ExitRec) string {
